@@ -7,6 +7,7 @@ package c06
 
 import (
 	"fmt"
+	"os"
 	"strings"
 
 	"github.com/ohler55/slip"
@@ -48,57 +49,79 @@ func init() {
 			},
 			MaxDepth: func(tier string) int {
 				if tier == engine.Thorough {
-					return 4
+					return 5 // the fifth step is restricted to the small alphabet core5 (policy.go)
 				}
 				return 3
 			},
 			NoDedupDepth: func(string) int { return 2 },
 			StateCap: func(tier string) int {
 				if tier == engine.Thorough {
-					return 3000000
+					return 30000000
 				}
 				return 0
 			},
 		},
-		Required: []string{"judged", "shared-backing", "destructive-on-shared", "extend-with-spare-cap"},
+		Required: requiredCounters(),
 		Bound:    bound,
 		Selftest: selftest,
 	})
 }
 
 func bound(tier string) string {
-	q, all, core := alphabet(engine.Quick), alphabet("all"), alphabet("core")
+	q, oq, all, core, c5, nw := alphabet(engine.Quick), alphabet("old-quick"), alphabet("all"), alphabet("core"), alphabet("core5"), alphabet("new")
 	if tier == engine.Thorough {
-		return fmt.Sprintf("static phase: every history of length 1..3 over the full alphabet of %d instantiated operations (%d families: %s), "+
+		return fmt.Sprintf("static phase: (1) every history of length 1..3 over the first-generation alphabet of %d instantiated operations (%d families), "+
 			"no deduplication, first step restricted to the operations applicable at the root that do not mention c (mirror symmetry); "+
-			"BFS phase: histories of length <= 4 over the reduced alphabet of %d operations (%s), no deduplication up to length 2, "+
-			"state-key deduplication beyond, state cap 3000000 (see notes if hit)",
-			len(all), len(strings.Fields(families(all))), families(all), len(core), families(core))
+			"(2) second generation (%d operations, %d families: keyword variants, functions new to the alphabet, containers, call sites): every history of "+
+			"length <= 2 over both generations, and the histories of length 3 [q c n], [c n m], [n c m], [n n' m], [n m n'] with q in the first-generation quick "+
+			"alphabet (%d), c in the reduced alphabet (%d), n a second-generation operation, n' a related one (same family, same producer at another call "+
+			"site, same container), m a first-generation quick operation that modifies or extends a list; "+
+			"BFS phase: histories of length <= 4 over the reduced alphabet of %d operations (%s), no deduplication up to length 2, state-key deduplication beyond, "+
+			"then a fifth step from every state reached, restricted to the %d operations of the small alphabet (one per sharing class: %s); state cap 30000000 (see notes if hit)",
+			len(all), len(strings.Fields(families(all))), len(nw), len(strings.Fields(families(nw))), len(oq), len(core),
+			len(core), families(core), len(c5), strings.Join(c5, " "))
 	}
-	return fmt.Sprintf("BFS: every history of length <= 3 over the quick alphabet of %d instantiated operations (%d families: %s), "+
-		"no deduplication up to length 2, state-key deduplication at length 3; histories starting with an operation on c are skipped (mirror symmetry)",
-		len(q), len(strings.Fields(families(q))), families(q))
+	return fmt.Sprintf("BFS over the quick alphabet of %d instantiated operations (%d first generation in %d families, %d second generation in %d families: %s): "+
+		"every history of length <= 2; length 3: every history over the first generation (as in the earlier rounds), [c c n], [c n m'], [n c m'], [n n' m'] "+
+		"with c in the reduced alphabet (%d), n second generation, n' related to n (same family, same producer at another call site, same container), "+
+		"m' a modifying operation of the reduced alphabet or an operation related to n; no deduplication up to length 2, state-key deduplication at length 3; "+
+		"histories starting with an operation on c are skipped (mirror symmetry)",
+		len(q), len(oq), len(strings.Fields(families(oq))), len(q)-len(oq), len(strings.Fields(families(q)))-len(strings.Fields(families(oq))), families(alphabetOfGroup(q)), len(core))
 }
 
-// enumerate: thorough only - all histories of length 1..3 over the full alphabet.
+// alphabetOfGroup keeps the second-generation operations of a list.
+func alphabetOfGroup(codes []string) []string {
+	var out []string
+	for _, c := range codes {
+		if opIndex[c].group != "" {
+			out = append(out, c)
+		}
+	}
+	return out
+}
+
+// enumerate: thorough only - the static phase described in bound().
 func enumerate(tier string, emit func(string)) {
-	if tier != engine.Thorough {
+	if tier != engine.Thorough || os.Getenv("VERIF_C06_BFS_ONLY") != "" { // the variable: development aid, measures the BFS phase of the thorough tier alone
 		// the quick tier is the BFS alone; one static case keeps the engine's "no case executed" guard quiet
 		emit(engine.BFSSpec(nil))
 		return
 	}
 	all := alphabet("all")
-	var first []string
 	m := newSliceModel(mutNone)
-	m.reset()
+	m.reset(nil)
 	st := m.observe()
 	t := newTrack()
-	for _, c := range all {
-		o := opIndex[c]
-		if !mentions(o, 2) && applicable(o, &st, t) {
-			first = append(first, c)
+	atRoot := func(codes []string) (first []string) {
+		for _, c := range codes {
+			o := opIndex[c]
+			if !mentions(o, 2) && applicable(o, &st, t) {
+				first = append(first, c)
+			}
 		}
+		return
 	}
+	first := atRoot(all)
 	emit(engine.BFSSpec(nil))
 	for _, a := range first {
 		emit(engine.BFSSpec([]string{a}))
@@ -115,11 +138,75 @@ func enumerate(tier string, emit func(string)) {
 			}
 		}
 	}
+	// ---- second generation
+	nw, oq, core := alphabet("new"), alphabet("old-quick"), alphabet("core")
+	var mq []string // first-generation quick operations that modify or extend a list
+	for _, c := range oq {
+		if o := opIndex[c]; o.destr || o.ext || o.name == "pop" {
+			mq = append(mq, c)
+		}
+	}
+	firstNew, firstQ, firstCore := atRoot(nw), atRoot(oq), atRoot(core)
+	for _, a := range firstNew {
+		emit(engine.BFSSpec([]string{a}))
+		for _, b := range all {
+			emit(engine.BFSSpec([]string{a, b}))
+		}
+		for _, b := range nw {
+			emit(engine.BFSSpec([]string{a, b}))
+		}
+	}
+	for _, a := range first {
+		for _, b := range nw {
+			emit(engine.BFSSpec([]string{a, b}))
+		}
+	}
+	for _, a := range firstQ { // [q c n]
+		for _, b := range core {
+			for _, c := range nw {
+				emit(engine.BFSSpec([]string{a, b, c}))
+			}
+		}
+	}
+	for _, a := range firstCore { // [c n m]
+		for _, b := range nw {
+			for _, c := range mq {
+				emit(engine.BFSSpec([]string{a, b, c}))
+			}
+		}
+	}
+	for _, a := range firstNew {
+		for _, b := range core { // [n c m]
+			for _, c := range mq {
+				emit(engine.BFSSpec([]string{a, b, c}))
+			}
+		}
+		for _, b := range sameFamily(opIndex[a]) { // [n n' m], [n m n']
+			for _, c := range mq {
+				emit(engine.BFSSpec([]string{a, b, c}))
+				emit(engine.BFSSpec([]string{a, c, b}))
+			}
+		}
+	}
 }
 
 func exec(spec string) (res engine.Result) {
 	if strings.HasPrefix(spec, "lisp:") {
 		return probe(spec[5:])
+	}
+	if strings.HasPrefix(spec, "selftest:") {
+		k, n, notes := selftest(spec[9:])
+		res.Outcome = fmt.Sprintf("\nkilled %d of %d\n%s", k, n, strings.Join(notes, "\n"))
+		return
+	}
+	if strings.HasPrefix(spec, "classes:") {
+		return classes(spec[8:])
+	}
+	if strings.HasPrefix(spec, "dev:") {
+		return devSweep(spec[4:])
+	}
+	if strings.HasPrefix(spec, "funcs:") {
+		return inventory(spec[6:])
 	}
 	codes, ok := engine.ParseBFSSpec(spec)
 	if !ok {
@@ -142,7 +229,7 @@ func exec(spec string) (res engine.Result) {
 // vcheck-C06 exec C06 --spec 'lisp:(setq b (subseq a 0 2)) (add b 9)').
 func probe(src string) (res engine.Result) {
 	m := &slipImpl{}
-	m.reset()
+	m.reset(nil)
 	val, err := lisp.EvalIn(m.scope, src)
 	st := m.observe()
 	res.Outcome = fmt.Sprintf("value=%s err=%s | %s | %s", lisp.Show(val), err.String(), showState(&st), stateKey(&st))
